@@ -149,6 +149,11 @@ func HarnessC16MapOperations() {
 			model = c16ModelSet(model, e.k, e.v)
 		}
 		verifrt.Assert(c16SameMap(other, omodel), "update-does-not-mutate-argument")
+		// the receiver keeps a map of its own: writing to it afterwards does not
+		// show in the argument
+		m.Set(k, &Int{value: v})
+		model = c16ModelSet(model, k, v)
+		verifrt.Assert(c16SameMap(other, omodel), "update-does-not-alias-the-argument")
 	case 6: // copy independence
 		cp := m.Copy()
 		verifrt.Assert(c16SameMap(cp, model), "copy-content")
@@ -240,6 +245,9 @@ func HarnessC16SetOperations() {
 			}
 		}
 		verifrt.Assert(c16SameSet(u, um), "union-content")
+		// the result is a set of its own: adding to it changes neither operand
+		u.Add(&Int{value: v})
+		u.Add(&Int{value: v + 1})
 	case 3:
 		in := s.Intersection(other)
 		var im []int64
@@ -249,6 +257,8 @@ func HarnessC16SetOperations() {
 			}
 		}
 		verifrt.Assert(c16SameSet(in, im), "intersection-content")
+		in.Add(&Int{value: v})
+		in.Add(&Int{value: v + 1})
 	case 4:
 		d := s.Difference(other)
 		var dm []int64
@@ -258,6 +268,8 @@ func HarnessC16SetOperations() {
 			}
 		}
 		verifrt.Assert(c16SameSet(d, dm), "difference-content")
+		d.Add(&Int{value: v})
+		d.Add(&Int{value: v + 1})
 	case 5:
 		verifrt.Assert(s.Contains(&Int{value: v}).value == c16Has(model, v), "contains")
 		verifrt.Assert(s.Len().value == int64(len(model)), "len")
